@@ -706,7 +706,7 @@ fn concat(v: &[Vec<u8>]) -> Vec<u8> {
     v.iter().flat_map(|x| x.iter().copied()).collect()
 }
 
-fn sessions(a: &Args, subj_index: usize) -> Vec<Session> {
+fn sessions(a: &Args, subj_index: usize, heavy: bool) -> Vec<Session> {
     let th = a.thorough();
     let root = Rng::new(a.seed);
     let mut out: Vec<Session> = vec![];
@@ -715,18 +715,22 @@ fn sessions(a: &Args, subj_index: usize) -> Vec<Session> {
     // --- exhaustive small scope: all strings over {0x00, 'a', 0xFF} (and its sub-alphabets)
     let a3 = [0u8, b'a', 255u8];
     let small = all_strings(&a3, 6); // 1093 strings, by length
-    let n_same = if th { small.len() } else { 121 }; // quick: every string up to length 4 ...
+    let n_same = if th { small.len() } else { 121 }; // quick: strings up to length 4 ...
     for (i, s) in small.iter().enumerate() {
-        // ... of which every subject takes every string up to length 3 and a rotating half of length 4
-        if i < n_same && (th || i < 40 || (i + subj_index + a.seed as usize) % 2 == 0) {
+        // ... of which every subject takes every string up to length 3 and a rotating third of length 4
+        if i < n_same && (th || i < 40 || (i + subj_index + a.seed as usize) % 3 == 0) {
             same("small3", s.clone());
         }
     }
     drop(same);
     // every string up to length 6 under one model trained on a superset / on unrelated data over the same alphabet
+    // (subjects that rebuild a 16 MiB decode table per call: every string up to length 4 and a rotating eighth of the rest)
     let mut r = root.derive("small3");
-    out.push(Session { klass: "small3".into(), mode: "superset", train: concat(&small[..121]), payloads: small.clone() });
-    out.push(Session { klass: "small3".into(), mode: "other", train: geometric_over(&a3, 300, &mut r), payloads: small[..364].to_vec() });
+    let keep = |i: usize| th || !heavy || i < 121 || (i + subj_index + a.seed as usize) % 8 == 0;
+    let sup: Vec<Vec<u8>> = small.iter().enumerate().filter(|(i, _)| keep(*i)).map(|(_, s)| s.clone()).collect();
+    out.push(Session { klass: "small3".into(), mode: "superset", train: concat(&small[..121]), payloads: sup });
+    let n_other = if th { 364 } else if heavy { 40 } else { 121 };
+    out.push(Session { klass: "small3".into(), mode: "other", train: geometric_over(&a3, 300, &mut r), payloads: small[..n_other].to_vec() });
 
     // --- lengths: 0..=17 (every residue mod 8, N*streams +- 1), around 24/32/64/100/128/256
     let mut lens: Vec<usize> = (0..=17).collect();
@@ -897,7 +901,8 @@ fn run_subject(a: &Args, name: &str) {
     let mut st = Stats::default();
     let all_ctx = a.thorough() && a.get("allctx").is_some();
     let progress = a.out.join(format!("progress-{name}.txt"));
-    let sess = sessions(a, idx);
+    let heavy = fam == "ctxil" || name == "ctx_o2";
+    let sess = sessions(a, idx, heavy);
     let mut samples: Vec<Value> = vec![];
     for (si, s) in sess.iter().enumerate() {
         if si < from || only.map_or(false, |k| k != si) {
